@@ -124,14 +124,21 @@ structure Cfg where
   /-- `peer.processReady` hands a Ready's messages to the transport only after `handleReady`
   (hard state → snapshot → entries persisted) returned nil; on an error nothing is sent. -/
   sendAfterPersist : Bool
+  /-- `peer.handleReady` persists a Ready's entries before its hard state (as-is: hard state
+  first, so a crash between the two leaves a commit index beyond the persisted log) -/
+  hsAfterEntries : Bool
   deriving DecidableEq, Repr
 
-def Cfg.good : Cfg := { flushOnAppend := true, syncFlushes := true, sendAfterPersist := true }
+def Cfg.good : Cfg := { flushOnAppend := true, syncFlushes := true, sendAfterPersist := true, hsAfterEntries := true }
 def Cfg.Good (c : Cfg) : Prop := c.flushOnAppend = true ∧ c.syncFlushes = true ∧ c.sendAfterPersist = true
 instance Cfg.decGood (c : Cfg) : Decidable c.Good := by unfold Cfg.Good; exact inferInstance
 /-- the shipped code: records stay in the bufio buffer when the call returns -/
 def Cfg.AsIsBuffered (c : Cfg) : Prop := c.flushOnAppend = false ∧ c.syncFlushes = true
 instance Cfg.decAsIsBuffered (c : Cfg) : Decidable c.AsIsBuffered := by unfold Cfg.AsIsBuffered; exact inferInstance
+def Cfg.OrderGood (c : Cfg) : Prop := c.hsAfterEntries = true
+instance Cfg.decOrderGood (c : Cfg) : Decidable c.OrderGood := by unfold Cfg.OrderGood; exact inferInstance
+def Cfg.OrderAsIs (c : Cfg) : Prop := c.hsAfterEntries = false
+instance Cfg.decOrderAsIs (c : Cfg) : Decidable c.OrderAsIs := by unfold Cfg.OrderAsIs; exact inferInstance
 def Cfg.SendsEarly (c : Cfg) : Prop := c.sendAfterPersist = false
 instance Cfg.decSendsEarly (c : Cfg) : Decidable c.SendsEarly := by unfold Cfg.SendsEarly; exact inferInstance
 def Cfg.Any (_ : Cfg) : Prop := True
@@ -355,6 +362,15 @@ def TermsMono (t : Nat) : List Rec → Prop
   | .other :: rs => TermsMono t rs
   | .ents _ _ :: rs => TermsMono t rs
   | .snap _ _ :: rs => TermsMono t rs
+
+/-- the records one Ready (hard state + entries) hands to the storage, in the order
+`handleReady` persists them -/
+def readyRecs (c : Cfg) (h : HS) (f : Nat) (items : List Item) : List Rec :=
+  if c.hsAfterEntries then [.ents f items, .hs h] else [.hs h, .ents f items]
+
+/-- what `raft.newLog` demands of a recovered storage: the commit index is inside the log -/
+def CommitOK (m : Mem) : Prop := m.hs.commit ≤ m.lastIndex
+instance (m : Mem) : Decidable (CommitOK m) := by unfold CommitOK; exact inferInstance
 
 def hsOf : List Rec → List HS
   | [] => []
